@@ -133,7 +133,7 @@ def with_die_kills(sc: dict, ch: Choices) -> dict:
 def compact_spec(sc: dict) -> dict:
     keep = ('nodes', 'requested', 'backend', 'max_workers', 'cpu_count', 'cof', 'cached', 'bust_cache', 'fail',
             'kills', 'interrupts', 'io_fault', 'inject_line', 'swarm', 's1', 'storage', 'progress', 'line_yield', 'rel_storage',
-            'chdir_nodes', 'coarse_clock', 'emit', 'linger', 'shapes', 'helpers', 'mp_children', 'earlier_call')
+            'chdir_nodes', 'coarse_clock', 'emit', 'linger', 'shapes', 'helpers', 'mp_children', 'earlier_call', 'earlier_interrupted')
     return {k: sc[k] for k in keep if k in sc and sc[k] not in (None, [], {})}
 
 
@@ -248,7 +248,22 @@ class Check:
                 out0 = execute(sc0, ch, None)
                 if out0.kind == 'return':
                     built = out0.built
-            out = execute(sc, ch, d, built=built)
+            session = None
+            if sc.get('earlier_interrupted'):
+                # an earlier run_tasks call on the same Lab object that was interrupted right after its first
+                # submission (serial backend: nothing has been executed yet); the observed call follows on that Lab
+                session = {}
+                sc0 = {k: v for k, v in sc.items() if k not in ('fail', 'kills', 'kill_rate', 'max_random_kills', 'bust_cache', 'prelude',
+                                                                'emit', 'load_faults', 'run_task', 'earlier_interrupted', 'earlier_call',
+                                                                'linger', 'helpers', 'shapes', 'rel_storage', 'progress')}
+                sc0.update({'backend': 'serial', 'interrupts': [{'mode': 'line', 'k': 0, 'after': 'submit'}], 'observe_after': False})
+                out0 = execute(sc0, ch, d, session=session)
+                if not (out0.kind == 'raise' and out0.exc and out0.exc['type'] == 'KeyboardInterrupt'):
+                    session = None if session.get('lab') is None else session      # (nothing was submitted: no interrupt)
+                sc = dict(sc)
+                sc['skip_warm'] = True
+                sc.pop('debris', None)
+            out = execute(sc, ch, d, built=built, session=session)
             if out.kind == 'warmup-failed':
                 vs = [O.V(self.id, 'earlier-run-failed', f'the earlier serial run that creates the cache pre-state (all tasks succeed) '
                           f'failed: {out.exc["type"]}: {out.exc["msg"][:200]}', exc=out.exc['type'])]
@@ -280,6 +295,8 @@ class Check:
             r['probes']['second-call-same-objects'] = 1
         if built is not None:
             r['probes']['earlier-call-same-objects'] = 1
+        if sc.get('earlier_interrupted'):
+            r['probes']['earlier-interrupted-call-same-lab'] = 1
         return r
 
     owns_liveness = False
@@ -454,6 +471,10 @@ class C10(Check):
         sc = gen_scenario(ch, backends=ALL_BACKENDS, cache='sometimes', fail=2, die=True, cof=(True, False, True), bust=True)
         if ch.stream('config').chance(1, 4):
             sc['earlier_call'] = True       # the task objects have been through a successful run_tasks call before
+        elif sc['backend'] != 'sim' and ch.stream('config').chance(1, 5):
+            sc['earlier_interrupted'] = True    # the Lab object has been through an interrupted run_tasks call before
+        if ch.stream('config').chance(1, 4):
+            sc['progress'] = True               # progress bars and the task monitor (psutil readings of task processes)
         return with_die_kills(sc, ch)
 
     def oracle(self, sc, out, facts):
